@@ -70,15 +70,25 @@ def spans(text, pat):
 TOOLS = ('verify', 'tifa', 'run')
 
 
-def one_pass(ctx, src, independent, pat, order, ending, case, tag):
+def one_pass(ctx, src, independent, pat, order, ending, case, tag, entry='separate'):
     orig = src.split("\n")
     sp = spans(src, pat)
     nsec = len(sp) - 1
-    ctx.step(('separate_into_sections', independent))
-    sections.separate_into_sections(pattern=pat, independent=independent)
+    if entry == 'separate':
+        ctx.step(('separate_into_sections', independent))
+        sections.separate_into_sections(pattern=pat, independent=independent)
+    else:
+        # the other documented way in: set_source(code, sections=<True or a pattern>, independent=...)
+        from pedal.source import set_source
+        ctx.step(('set_source', 'sections', independent))
+        set_source(src, sections=True if pat == DEFAULT_PAT else pat, independent=independent)
     secs = MAIN_REPORT['source']['sections']
     if ''.join(secs) != src:
         ctx.fail({'symptom': 'sections do not concatenate to the original', 'pass': tag}, case=case, sections=secs)
+        return
+    if len(secs) != 2 * nsec + 1:
+        ctx.fail({'symptom': 'file not split at the given pattern', 'entry': entry,
+                  'pattern': 'default' if pat == DEFAULT_PAT else 'custom'}, case=case, sections=len(secs), markers=nsec)
         return
     for k in range(0, nsec + 3):
         n0 = len(MAIN_REPORT.feedback)
@@ -99,7 +109,8 @@ def one_pass(ctx, src, independent, pat, order, ending, case, tag):
         expect = src[a:b] if (independent or k == 0) else src[:b]
         if code != expect:
             ctx.fail({'symptom': 'section text is not the k-th chunk', 'mode': 'independent' if independent else 'cumulative',
-                      'pass': tag}, case=case, k=k, got=code, want=expect)
+                      'pass': tag, 'entry': entry, 'pattern': 'default' if pat == DEFAULT_PAT else 'custom'},
+                     case=case, k=k, got=code, want=expect)
             break
         offset = src[:a].count("\n") if independent else 0
         ok = None
@@ -173,17 +184,19 @@ def make_body(max_lines, orders, second):
         order = orders[ctx.choose(len(orders), 'order')]
         ending = ('stop', 'resolve')[ctx.choose(2, 'ending')]
         again = ctx.choose(3, 'second-pass') if second else 0     # 0 none, 1 same mode, 2 other mode
+        entry = ('separate', 'set_source')[ctx.choose(2, 'entry')] if second else 'separate'
         src = mk(kinds, marker)
         case = {'file': src, 'mode': 'independent' if independent else 'cumulative', 'pattern': pname,
-                'order': order, 'ending': ending, 'second_pass': again}
+                'order': order, 'ending': ending, 'second_pass': again, 'entry': entry}
         canon = repr(case)
         ctx.observe(canon)
         ctx.set_sample(case)
         if 'marker' in kinds and any(k in ('name', 'syntax') for k in kinds[kinds.index('marker'):]):
             ctx.mark_nontrivial(canon)
         cmds.clear_report()
-        cmds.contextualize_report(src)
-        one_pass(ctx, src, independent, pat, order, ending, case, 'first')
+        if entry == 'separate':
+            cmds.contextualize_report(src)
+        one_pass(ctx, src, independent, pat, order, ending, case, 'first', entry)
         if again and ending == 'stop' and not ctx.fails:
             mode2 = independent if again == 1 else not independent
             one_pass(ctx, src, mode2, pat, order, 'stop', case, 'second')
